@@ -1,0 +1,12 @@
+//go:build verif
+
+// Contracts for the exovc verifier (/verif). Comment-only: with the tag off this file is not part
+// of the package, with the tag on it declares nothing.
+package keeper
+
+//@ func (Keeper).UpdateParams
+//@   requires msg != nil
+//@   requires isMainnet(unwrap_ctx(ctx)) && k.authority != msg.Authority
+//@   flag prune
+//@   ensures[C10.up.exomint] isMainnet(unwrap_ctx(ctx)) && k.authority != old(msg.Authority) ==>
+//@        err != nil && state(unwrap_ctx(ctx)) == old(state(unwrap_ctx(ctx)))
